@@ -337,8 +337,17 @@ def run_impl(case):
         elif str(out) != 'ok':
             # every op of the recipe is legal on the structure built so far: a refusal is a finding, not a harness error
             fails.append({'sig': 'recipe-op-rejected', 'what': 'the legal operation %s was refused with %s after %s' % (op, out, ops[:i])})
+    sets = {}
     for (order, rel, ph) in case['sorts']:
-        qs = _x.QuerySet([model.insts[i] for i in order])
+        # the SAME QuerySet object is handed to every sort of the case that uses this member order: sorting must not
+        # consume or reorder the caller's set
+        qs = sets.get(tuple(order))
+        if qs is None:
+            qs = sets[tuple(order)] = _x.QuerySet([model.insts[i] for i in order])
+        elif [model.idx(i) for i in qs] != list(order):
+            fails.append({'sig': 'argument-set-changed', 'what': 'an earlier sort_reflexive call changed its argument set from %s to %s'
+                          % (list(order), [model.idx(i) for i in qs])})
+            qs = sets[tuple(order)] = _x.QuerySet([model.insts[i] for i in order])
         try:
             res = [model.idx(i) for i in _x.sort_reflexive(qs, rel, ph)]
         except _x.UnknownLinkException:
